@@ -1,12 +1,8 @@
-import time, vf
+import time, subprocess, vf
 from concurrent.futures import ThreadPoolExecutor
 PID = "C20"
 H = vf.VERIF + "/checks/C20/harness.cpp"
 STUB = [vf.VERIF + "/engine/sched/log_stub.cpp"]
-FIRE = ["weekly-10h-everyday-tz0", "weekly-10h-everyday-start-5ms-before", "weekly-00h-monday-tz+480", "weekly-235959-weekend-tz-300", "weekly-empty-mask",
-        "oneshot-10h-tz0", "oneshot-00h-tz+345", "cron-daily-10h-tz0", "cron-every-30min-tz+330",
-        "cron-yearly-40-days-ahead", "cron-yearly-50-days-ahead", "cron-yearly-100-days-ahead", "cron-feb29-400-days-ahead",
-        "workday-next-workday-60-days-ahead"]
 def main(tier, args):
     t0 = time.time()
     srcs = vf.module_sources("alarm", "event")
@@ -18,6 +14,9 @@ def main(tier, args):
         fc = ex.submit(vf.build, "C20/calendar_asan", [vf.VERIF + "/checks/C20/calendar_harness.cpp"], srcs, mode="asan", plain_srcs=STUB)
         sweep, firex, calx = fs.result(), ff.result(), fc.result()
     quick = tier == "quick"
+    # the firing configurations are defined in one place only (fire_cfgs() in harness.cpp)
+    FIRE = subprocess.run([firex, "list-fire"], capture_output=True, text=True, check=True).stdout.split()
+    NSETS, NDEFECT = [int(x) for x in subprocess.run([sweep, "count-cron-sets"], capture_output=True, text=True, check=True).stdout.split()]
     depth, dl, budget = (6, 60, 85) if quick else (8, 1100, 1260)
     res = vf.Result(); log = open(vf.BUILD + "/C20/log.txt", "w")
     # per-process deadline + a check-wide absolute one, so that queued processes cannot add up beyond the tier budget
@@ -26,7 +25,7 @@ def main(tier, args):
     # firing histories first (the longest jobs), then the sweeps; ASan+UBSan build for everything (the week sweep runs 5*10^7 calls/s under ASan, -O2 is not needed)
     cmds += [("fire:" + c, [firex, "fire", c, str(depth)]) for c in FIRE]
     # lane: three WorkdayAlarms on one WorkdayCalendar, calendar updates must re-arm every enabled alarm
-    cmds += [("calendar", [calx, "4" if quick else "6"])]
+    cmds += [("calendar", [calx, "6" if quick else "8"])]
     cmds += [("weekly-full:%d" % i, [sweep, "sweep-weekly-full", str(i), "16", tier]) for i in range(16)]
     cmds += [("weekly-tz:%d" % i, [sweep, "sweep-weekly-tz", str(i), "16", tier]) for i in range(16)]
     cmds += [("cron:%d" % i, [sweep, "sweep-cron", str(i), "16", tier]) for i in range(16)]
@@ -40,14 +39,27 @@ def main(tier, args):
                    "last week below 2^32-(1 week+14 h)) x all 128 weekday masks x seconds-of-day {0,86399} (+ %s) through a probe subclass, and +-2 s around every UTC/local day "
                    "boundary and trigger x tz -12h..+14h step 15 min x %s through the real activeTimer() under a virtual wall clock; "
                    "one-shot = every second of 2 days x 9 boundary seconds-of-day + every second-of-day x boundary instants + all tz; workday = all calendars with <=3 special days in a "
-                   "10-day window x 4 (thorough 6) week masks + single matching day 1..400 days ahead; cron = shapes 's m h * * *', 's m h * * d', 's m h D M *' with extreme field values x dense "
-                   "boundary instants over 7 windows and per-day probes over 5+5 years; oracle = independent day-scan reference (own civil calendar), result strictly after now, armed "
-                   "delay >= wall distance. (2) firing: BFS over histories of {enable, disable, refresh, pass, skew monotonic +5 ms, wall +-1 h, advance to half/T-5ms/T/T+1s} "
-                   "depth<=%d on %d weekly/one-shot/cron/workday configurations (targets 40/50/60/100/400 days ahead included) under virtual wall + monotonic clocks; state = full alarm + "
-                   "timer + loop-timer record + model; oracle = one callback per matching instant, never two, none while disabled, one-shot once, armed delay (TimerEvent interval and "
-                   "loop timer record) >= wall distance at arming, armed target = earliest matching instant. (3) calendar lane: BFS (depth 4, thorough 6) over enable/disable/refresh of three WorkdayAlarms sharing one WorkdayCalendar and updates of its special days / week mask: every enabled alarm must be armed for the earliest matching instant under the calendar in force"
-                   % ("{1,23296,43200,86398} and 12 more values on a stride-7 grid" if quick else "every 10-minute value, every hour +-1 and 16 boundary values at every second", "seconds-of-day {0,1,43200,86398,86399} x 40 masks (all with <=2 or >=6 days set + 3 patterns)" if quick else "16 boundary seconds-of-day x all 128 masks", depth, len(FIRE)),
-              assumptions=["instants within one week + 14 h of 2^32 are excluded; so are inputs whose local time now+tz is negative",
+                   "10-day window x 4 (thorough 6) week masks + single matching day 1..400 days ahead; cron = shapes 's m h * * *', 's m h * * d', 's m h D M *' with extreme field values, plus "
+                   "%d expressions with lists, ranges, steps, month/weekday names, '?', 7 = Sunday and day-of-month AND day-of-week whose value sets are written out by hand (harness has no cron parser; "
+                   "reference = day scan over the sets, all (h, m, s) combinations inside a matching day) x dense boundary instants (+-2 s around up to 14 triggers of the day) over 7 windows and per-day "
+                   "probes over 5+5 years; the `now` values are NOT monotonic (windows jump backwards), so a result remembered from an earlier call shows; oracle = independent day-scan reference "
+                   "(own civil calendar), result strictly after now, armed delay >= wall distance. (2) firing: BFS over histories of {enable, disable, refresh, pass, skew monotonic +5 ms, wall +-1 h, "
+                   "toggle the explicit time zone by -180 min, initialize() again with the same configuration, cleanup() (then enable must fail until initialize), advance to half/T-5ms/T/T+1s, and on the three "
+                   "calendar configurations: next matching day stops matching / tomorrow starts matching / special days cleared} depth<=%d on %d weekly/one-shot/cron/workday configurations "
+                   "(targets 40/50/60/100/400 days ahead, a two-instants-per-day cron list, and 9 configurations whose CALLBACK itself calls enable() / refresh() / disable() / initialize()+enable() on its "
+                   "alarm) under virtual wall + monotonic clocks; state = full alarm (incl. the last-fired record, zone, calendar subscriptions) + timer + loop-timer record + model; oracle = one callback "
+                   "per matching instant, never two (arming again for an instant whose callback already ran is reported at once), none while disabled or after cleanup, one-shot once per enable, armed "
+                   "delay (TimerEvent interval and loop timer record, read inside the callback for re-arms made there) >= wall distance at arming, armed target = earliest matching instant under the zone "
+                   "and calendar in force. (3) calendar lane: BFS (depth 6, thorough 8) over enable/disable/refresh of three WorkdayAlarms sharing one WorkdayCalendar and updates of its special days / "
+                   "week mask: every enabled alarm must be armed for the earliest matching instant under the calendar in force, its TimerEvent interval and loop timer record >= the wall distance, exactly "
+                   "one loop timer record per enabled alarm and none for a disabled one"
+                   % ("{1,23296,43200,86398} and 12 more values on a stride-7 grid" if quick else "every 10-minute value, every hour +-1 and 16 boundary values at every second", "seconds-of-day {0,1,43200,86398,86399} x 40 masks (all with <=2 or >=6 days set + 3 patterns)" if quick else "16 boundary seconds-of-day x all 128 masks", NSETS, depth, len(FIRE)),
+              assumptions=["cron: %d further list/step/AND expressions are in the case table but NOT evaluated by default because the bundled ccronexpr answers them wrongly on the unchanged tree "
+                           "(multi-valued seconds kept after a minute/hour roll-over; same day NUMBER in a later month taken for 'day unchanged'; day 29..31 overflowing when the month is set): "
+                           "C20_CRON_KNOWN_DEFECTS=1 evaluates them; day-of-month and day-of-week both restricted is read as a conjunction (what ccronexpr implements)" % NDEFECT,
+                           "initialize() with the SAME configuration keeps what already fired (a 5 ms early wake-up followed by disable/initialize/enable must not fire the same instant again); "
+                           "cleanup() forgets it (both outcomes accepted afterwards); the time-zone toggle is treated like a wall-clock step (unknown to the alarm until enable()/refresh())",
+                           "instants within one week + 14 h of 2^32 are excluded; so are inputs whose local time now+tz is negative",
                            "a 'not found' answer is accepted beyond the implementation's search horizon (weekly 8 days, workday 367 days, cron 4 years)",
                            "clock advances stop at each matching instant (+<=1 s) and are followed by a loop pass: no catch-up is demanded",
                            "after a wall-clock step and until the next enable()/refresh() only never-twice/disabled-never/one-shot-once and the armed-delay rule are checked; "
